@@ -160,7 +160,7 @@ def proc_scenarios(tier, part="all"):
         ("c_mem_ck1", _pm(2, [1, 2], [2, 1, 7], 3, M=1), 1, 0), ("c_mem_ck2", _pm(2, [1, 2], [2, 1, 7], 3, M=1), 2, 0),
         ("d_zero_ck1", _pm(2, [3, 1], [2, 3, 1], 3), 1, 0), ("d_zero_ck2", _pm(2, [3, 1], [2, 3, 1], 3), 2, 1),
         ("e_mem3_ck1", _pm(3, [4, 2, 1], [4, 2, 1], 3, M=2), 1, 0),
-        ("f_rng_auto", _pm(2, [2, 1], [1, 2, 2], 3, G=2), 0, 0), ("f_rng_ck2", _pm(2, [2, 1], [1, 2, 2], 3, G=2), 2, 1),
+        ("f_rng_ck4", _pm(2, [2, 1], [1, 2, 2], 3, G=2), 4, 0), ("f_rng_ck2", _pm(2, [2, 1], [1, 2, 2], 3, G=2), 2, 1),
         ("g_ties_ck1", _pm(2, [5, 1], [1, 5, 2], 2), 1, 0), ("g_ties_ck2", _pm(2, [5, 1], [1, 5, 2], 2), 2, 1),
         ("h_tiebig", _pm(2, [9, 9], [9, 2, 9], 1), 1, 0), ("i_chain", _pm(2, [6, 2], [2, 6, 1], 3), 2, 0),
     ]
